@@ -2,7 +2,8 @@
    TRIM <labs> <atoms> | <decl> ; <decl> ... | <mask>
      decl = <file>:<path> <sexpr>     path = "-" or steps "r0=/r1?/h0!" (label, field kind)
      mask = one character per declaration, 1 = removed by the implementation
-   -> <value of P> <value of P minus removed> <ACCEPT|REJECT> <mask the reference trimmer removes> <length of trim_model P> *)
+   -> <value of P> <value of P minus removed> <ACCEPT|REJECT> <mask the reference trimmer removes> <length of trim_model P>
+   FP ...    (same syntax) -> the fingerprint (accept, trimmer mask, bits of both result trees) compared with vm_compute *)
 open C20_model
 
 let rec pos_of_int i = if i = 1 then XH else if i land 1 = 0 then XO (pos_of_int (i lsr 1)) else XI (pos_of_int (i lsr 1))
@@ -134,6 +135,13 @@ let handle line =
          let mm = c20_trim_mask p in
          show v0 ^ " " ^ show v1 ^ " " ^ (if acc then "ACCEPT" else "REJECT") ^ " " ^ bits mm
          ^ " " ^ string_of_int (List.length (c20_trim_model p))
+     | ["FP"; labs; atoms] ->
+       let labs = List.map label_of (String.split_on_char ',' labs) in
+       let atoms = List.map atom_of (String.split_on_char ',' atoms) in
+       let p = List.map decl_of_string (List.filter (fun s -> s <> "") (split_trim ';' body)) in
+       let m = List.map (fun c -> c = '1') (List.init (String.length mask) (String.get mask)) in
+       let (((acc, mm), b0), b1) = c20_fingerprint labs atoms m p in
+       (if acc then "1" else "0") ^ " " ^ bits mm ^ " " ^ bits b0 ^ " " ^ bits b1
      | _ -> "BADCASE")
   | _ -> "BADCASE"
 
